@@ -824,7 +824,9 @@ def check_pair_length(ctx):
     for p in paths:
         if p.outcome != "raise":
             continue
-        for c, v in p.facts:
+        from .common import both_polarities as _bp
+
+        for c, v in _bp(p.facts):  # `not all(len == 2)` and `any(len != 2)` are one guard
             t = c.t
             if t[0] == "any" and v and t[1].t[0] == "cmp" and t[1].t[1] == "!=0" and (nf_equal(t[1].t[2], ln - 2) or nf_equal(t[1].t[2], 2 - ln)):
                 if p.exc.exc_name == "ValueError" and not any(e.kind == "rng_draw" for e in p.events):
@@ -832,7 +834,9 @@ def check_pair_length(ctx):
     ctx.check(found, "C18.d GUARDS", "anomaly-pair-length", f.loc(), "any(len(anomaly) != 2) raises ValueError before the draw" if found else "no ValueError path guarded by any(len(anomaly) != 2)", expected="anomalies that are not (start, end) pairs raise ValueError")
     # a returning path must carry the negated guard
     for k, p in enumerate(q for q in paths if q.outcome == "return"):
-        has = any(c.t[0] == "any" and not v and c.t[1].t[0] == "cmp" and (nf_equal(c.t[1].t[2], ln - 2) or nf_equal(c.t[1].t[2], 2 - ln)) for c, v in p.facts)
+        from .common import both_polarities as _bp2
+
+        has = any(c.t[0] == "any" and not v and c.t[1].t[0] == "cmp" and (nf_equal(c.t[1].t[2], ln - 2) or nf_equal(c.t[1].t[2], 2 - ln)) for c, v in _bp2(p.facts))
         ctx.check(has, "C18.d GUARDS", f"anomaly-pair-length:return#{k}", f.loc(), "returning path passed the pair-length guard", nontrivial=False)
 
 
@@ -851,6 +855,9 @@ def check_frame(ctx, f, pk, p, info):
     ok_data = isinstance(data, Num) and data.arr is not None and getattr(data.arr, "rvs", None) is not None and data.cond is None and nf_equal(data.nf, NF.atom(single_atom(data.nf))) and not _idx_atoms(data.nf)
     idx = c.data.get("index")
     ok_idx = isinstance(idx, RangeV) and idx.lo.nf.as_const() == 0 and idx.step.nf.as_const() == 1 and nf_equal(idx.hi.nf, info["n"])
+    # no index= at all: pandas gives array data the default RangeIndex(0, n), the same labels (a Series / frame would carry
+    # its own index - the data obligation above demands the generated ndarray)
+    ok_idx = ok_idx or ((idx is None or isinstance(idx, NoneV)) and isinstance(data, Num) and data.pytype == "ndarray" and data.arr is not None)
     cols = c.data.get("columns")
     ncol = _list_len(cols) if cols is not None else None
     ok_cols = cols is None or (ncol is not None and nf_equal(ncol, info["p"])) or _comp_len(cols, info["p"])
